@@ -1067,7 +1067,7 @@ def expect(w, i, spec=None):
     size = np.array(m.site_size[oid])
     lo = hi = 0.0
     fragile = False
-    ncand = 0
+    ncand = n_inside = n_rayonly = 0
     for c in w.contacts():
       if not c['active'] or b not in c['body']:
         continue
@@ -1092,14 +1092,20 @@ def expect(w, i, spec=None):
       if abs(s1) < 1e-9 or abs(s2) < 1e-9:
         fragile = True
       ncand += 1
+      if ins:
+        n_inside += 1
+      elif hit_lo:
+        n_rayonly += 1          # point outside the zone, re-projection ray hits it
       if hit_lo:
         lo += fn
       if hit or ins:
         hi += fn
     if fragile:
       return Result('none', level='isolation', note='touch-fragile')
-    return Result('bounds', lo=lo, hi=hi, tol=1e-12 * (1 + hi), cls='touch',
-                  note='touch:%s' % ('none' if hi == 0 else 'exact' if lo == hi else 'bracket'))
+    r = Result('bounds', lo=lo, hi=hi, tol=1e-12 * (1 + hi), cls='touch',
+               note='touch:%s' % ('none' if hi == 0 else 'exact' if lo == hi else 'bracket'))
+    r.n_inside, r.n_rayonly, r.n_candidates = n_inside, n_rayonly, ncand
+    return r
 
   if kind in ('subtreecom', 'subtreelinvel', 'subtreeangmom'):
     M, c, vc, L, sc = subtree_props(w, oid)
